@@ -219,6 +219,24 @@ func applyRep(doc map[string]any, rep replacement, vn string, env map[string]str
 		j := i + (rep.Cut/7)%(len(r)-i+1)
 		tmpl = string(r[:i]) + "${" + vn + "}" + string(r[j:])
 		env[vn] = string(r[i:j])
+	case rep.Form == "tail":
+		// round 6: the leaf gets a tail with `$` / closing braces (both documents), then is written as
+		// <operator expression> + tail with the `$` of the tail escaped or one chunk supplied through a bare variable
+		if _, isStr := orig.(string); isStr {
+			full := text + metaTails[rep.Cut%len(metaTails)]
+			fs := tailForms(full, rep.Cut/len(metaTails))
+			f := fs[(rep.Cut/3)%len(fs)]
+			var fenv map[string]string
+			tmpl, fenv = f.named(vn)
+			for k, e := range fenv {
+				env[k] = e
+			}
+			lf.set(tmpl)
+			leavesOf(expect)[rep.Leaf].set(escDollar(full))
+			return f.Name + "@" + lf.General
+		}
+		tmpl = "${" + vn + "}"
+		env[vn] = text
 	case rep.Form == "bare":
 		tmpl = "$" + vn
 		env[vn] = text
@@ -235,10 +253,29 @@ func applyRep(doc map[string]any, rep replacement, vn string, env map[string]str
 	return rep.Form + "@" + lf.General
 }
 
+// metaTails: what follows the operator expression on the same line (whole-load level)
+var metaTails = []string{" $ }", " | awk '{print $1}'", " {x} $HOME}", "}", " $}", "; f() { echo $1; }", " {{.Name}} $5 }", " x y}"}
+
+// tailFriendly: string leaves that stay loadable with arbitrary text
+func tailFriendly(general string) bool {
+	for _, k := range []string{".command", ".entrypoint", ".environment.", ".labels.", ".annotations.", "x-", ".hostname", ".working_dir", ".content", ".healthcheck.test"} {
+		if strings.Contains(general, k) {
+			return true
+		}
+	}
+	return false
+}
+
 func buildMeta(a metaArgs, only int) (vdoc, edoc string, env map[string]string, labels []string) {
+	v, e, env, labels := buildMetaTrees(a, only)
+	return emitYAML(v), emitYAML(e), env, labels
+}
+
+// buildMetaTrees: the variable-bearing document, the literal document it stands for, the environment.
+func buildMetaTrees(a metaArgs, only int) (v, e map[string]any, env map[string]string, labels []string) {
 	base := core.DecodeVal(a.Doc).(map[string]any)
-	v := core.DeepCopyVal(base).(map[string]any)
-	e := core.DeepCopyVal(base).(map[string]any)
+	v = core.DeepCopyVal(base).(map[string]any)
+	e = core.DeepCopyVal(base).(map[string]any)
 	env = map[string]string{}
 	for i, rep := range a.Reps {
 		if only >= 0 && i != only {
@@ -246,7 +283,7 @@ func buildMeta(a metaArgs, only int) (vdoc, edoc string, env map[string]string, 
 		}
 		labels = append(labels, applyRep(v, rep, fmt.Sprintf("V%d", i), env, e))
 	}
-	return emitYAML(v), emitYAML(e), env, labels
+	return v, e, env, labels
 }
 
 func sameOutcome(a, b json.RawMessage) bool {
@@ -473,7 +510,7 @@ func realEscape(raw json.RawMessage) any {
 }
 
 func runC08Meta(ctx *core.Ctx) {
-	forms := []string{"var", "var", "default", "split", "bare"}
+	forms := []string{"var", "var", "default", "split", "bare", "tail", "tail"}
 	for i := 0; i < ctx.Pick(1200, 40000); i++ {
 		doc := genDoc(ctx.Rng)
 		ls := leavesOf(doc)
@@ -493,6 +530,21 @@ func runC08Meta(ctx *core.Ctx) {
 			}
 			seen[li] = true
 			f := forms[ctx.Rng.Intn(len(forms))]
+			if f == "tail" {
+				// prefer a leaf that stays loadable with free text
+				var cand []int
+				for x, lf := range ls {
+					if _, ok := lf.get().(string); ok && tailFriendly(lf.General) && !seen[x] {
+						cand = append(cand, x)
+					}
+				}
+				if len(cand) > 0 && k != len(ls) {
+					delete(seen, li)
+					li = cand[ctx.Rng.Intn(len(cand))]
+					seen[li] = true
+					ctx.Count("meta-tail:free-text-leaf")
+				}
+			}
 			reps = append(reps, replacement{Leaf: li, Form: f, Cut: ctx.Rng.Intn(1000)})
 			ctx.Count("meta-form:" + f)
 		}
